@@ -80,6 +80,15 @@ def run_case(tier, seed, index, spec=None):
             d2 = fggs.FiniteDomain(list(vals))
             if not (d == d2) or (d != d2):
                 V('domain-equality', f'FiniteDomain({vals}) != its content-equal copy')
+            # the domain owns its values: what the caller does to the list it passed in afterwards is none of its business
+            mine = list(vals)
+            d3 = fggs.FiniteDomain(mine)
+            mine.append('appended-later')
+            if mine[:-1]:
+                mine[0] = 'overwritten-later'
+            if d3.size() != s or not (d3 == d2) or any(d3.contains(v) is not True for v in vals) or d3.contains('appended-later') is not False \
+               or [d3.denumberize(i) for i in range(s)] != vals or [d3.numberize(v) for v in vals] != list(range(s)):
+                V('domain-aliases-caller-list', f'FiniteDomain built from a list changed when the caller mutated that list afterwards ({vals})')
             other = vals[:-1] if vals else ['q']
             if fggs.FiniteDomain(other) == d:
                 V('domain-equality', f'FiniteDomain({other}) == FiniteDomain({vals})')
